@@ -1,10 +1,35 @@
 (** Executable comparison used by the correspondence check of C11: the harness
     reports, for a sequence of transactions on a real bbolt file, every
-    operation with what the implementation returned; [case_ok] replays the same
-    operations on the model and compares every result, the way each managed
-    call ended, and the dump of the whole tree after every step. *)
-From Verif Require Import Base.Prelude KV.KV.
+    operation with what the implementation returned; [case_verdict] replays the
+    same operations on the model - with the control-flow skeleton of the managed
+    calls regenerated from the repository (Generated/TxFlow.v) - and compares
+    every result, the way each managed call ended, the number of read
+    transactions left open and the dump of the whole tree after every step.
+
+    Two comparisons are made in one pass.  [sim] is what decides: it compares
+    everything the theorems of Properties/C11.v speak about.  [exact]
+    additionally demands bbolt's own corner behaviours the property is silent
+    about (the error class of DeleteNestedBucket for a name that is not bound /
+    for the empty name, the error class and number of NextSequence / SetSequence
+    on a read-only transaction, where a cursor stands after Next or Prev ran off
+    the end); a case that is [sim] but not [exact] is counted as drift in the
+    evidence and raises nothing. *)
+From Coq Require Import Uint63.
+From Verif Require Import Base.Prelude KV.KV Generated.TxFlow.
 Local Open Scope N_scope.
+
+(** Byte strings of the generated cases files are written as 63-bit machine
+    integers, seven bytes each (most significant first, the last word padded):
+    such literals are read natively, while every [N] numeral goes through the
+    number notation.  Used by the cases files only. *)
+Fixpoint bytes_of_N (k : nat) (n : N) (acc : bytes) : bytes :=
+  match k with
+  | O => acc
+  | S k' => bytes_of_N k' (n / 256) ((n mod 256) :: acc)
+  end.
+Definition word_bytes (w : int) : bytes := bytes_of_N 7 (Z.to_N (Uint63.to_Z w)) [].
+Definition bx (len : int) (ws : list int) : bytes :=
+  firstn (Z.to_nat (Uint63.to_Z len)) (flat_map word_bytes ws).
 
 Fixpoint list_eqb {A} (f : A -> A -> bool) (a b : list A) : bool :=
   match a, b with
@@ -80,64 +105,198 @@ Definition outcome_eqb (a b : outcome) : bool :=
   | _, _ => false
   end.
 
+(** ** The deciding comparison *)
+
+Definition is_some {A} (x : option A) : bool := match x with Some _ => true | None => false end.
+
+(** Cursor results.  After a relative move (Next / Prev) returned nil the
+    position of a bbolt cursor is not specified by anything the property says:
+    until the next absolute move (First / Last / Seek) only the shape of what
+    comes back is compared. *)
+Fixpoint cur_sim (loose : bool) (cs : list cop) (model observed : list cres) : bool :=
+  match cs, model, observed with
+  | [], [], [] => true
+  | c :: cs', m :: model', o :: observed' =>
+      match c with
+      | CFirst | CLast | CSeek _ => cres_eqb m o && cur_sim false cs' model' observed'
+      | CNext | CPrev =>
+          (if loose then match o with CKV _ => true | CErr _ => false end else cres_eqb m o)
+          && cur_sim (loose || match m with CKV None => true | _ => false end) cs' model' observed'
+      | CDelete =>
+          (if loose then match o with CErr _ => true | CKV _ => false end else cres_eqb m o)
+          && cur_sim loose cs' model' observed'
+      end
+  | _, _, _ => false
+  end.
+
+Definition result_sim (o : bop) (model observed : result) : bool :=
+  match o, model, observed with
+  (* bbolt answers by the key its search stopped at *)
+  | DeleteNested _, RErr (Some EBucketNotFound), RErr (Some _) => true
+  | DeleteNested [], RErr (Some _), RErr (Some _) => true
+  (* bdb hands out bbolt's own error value here *)
+  | _, RErr (Some EBoltTxNotWritable), RErr (Some _) => true
+  | _, RNumErr _ (Some EBoltTxNotWritable), RNumErr _ (Some _) => true
+  | Cursor cs, RCur m, RCur x => cur_sim false cs m x
+  | _, _, _ => result_eqb model observed
+  end.
+
+(** verdict = (sim, exact) *)
+Definition verdict := (bool * bool)%type.
+Definition vand (a b : verdict) : verdict := (fst a && fst b, snd a && snd b).
+Definition vbool (b : bool) : verdict := (b, b).
+
+Fixpoint results_ok (model : list result) (observed : list (op * result)) : verdict :=
+  match model, observed with
+  | [], [] => (true, true)
+  | m :: model', (o, x) :: observed' =>
+      vand (result_sim (snd o) m x, result_eqb m x) (results_ok model' observed')
+  | _, _ => (false, false)
+  end.
+
 (** One step of a case.  [ret] = how the managed call ended as observed
     ([Some OOk]: returned nil, [Some OErr]: returned the closure's own error,
     [Some OPanic]: the closure's panic value came out; [None]: anything else);
-    [post] = dump of the whole tree by a fresh read transaction afterwards. *)
+    [post] = dump of the whole tree by a fresh read transaction afterwards;
+    [open] = read transactions open afterwards (bbolt's OpenTxN). *)
+Definition ccall := (outcome * list (op * result) * option outcome)%type.
+
 Inductive step :=
-| STx (k : kind) (ops : list (op * result)) (ret : option outcome) (post : bkt)
-| SReopen (post : bkt)
+| STx (k : kind) (ops : list (op * result)) (ret : option outcome) (post : bkt) (open : N)
+| SReopen (post : option bkt)          (* None: Close did not return *)
 | SOverlap (before : list (op * result))
            (k : kind) (ops : list (op * result)) (ret : option outcome)
-           (after : list (op * result)) (post : bkt).
+           (after : list (op * result)) (post : bkt) (open : N)
+| SConc (batch : bool) (calls : list ccall) (order : list nat) (post : bkt) (open : N).
 
-Definition results_ok (model : list result) (observed : list (op * result)) : bool :=
-  list_eqb result_eqb model (map snd observed).
-
-Definition tx_ok (s : dbstate) (k : kind) (ops : list (op * result)) (ret : option outcome)
-  : option dbstate :=
-  match run_tx s k (map fst ops) with
+(** the state after the step and whether everything matched exactly; [None]:
+    the deciding comparison failed *)
+Definition tx_ok (fl : flows) (s : dbstate) (k : kind) (ops : list (op * result)) (ret : option outcome)
+  : option (dbstate * bool) :=
+  match run_tx fl s k (map fst ops) with
   | None => None
-  | Some (s', rs, o) =>
-      if results_ok rs ops && option_eqb outcome_eqb ret (Some o) then Some s' else None
+  | Some (s', rs, r) =>
+      let v := results_ok rs ops in
+      if fst v && option_eqb outcome_eqb ret r then Some (s', snd v) else None
   end.
 
-Definition step_ok (s : dbstate) (st : step) : option dbstate :=
+Definition after_ok (s' : dbstate) (post : bkt) (open : N) : bool :=
+  bkt_eqb (committed s') post && N.eqb (readers s') open.
+
+(** concurrent callers: [order] lists the calls in the serial order observed *)
+Fixpoint nodupb (l : list nat) : bool :=
+  match l with
+  | [] => true
+  | x :: l' => negb (existsb (Nat.eqb x) l') && nodupb l'
+  end.
+Definition is_perm (order : list nat) (n : nat) : bool :=
+  Nat.eqb (length order) n && forallb (fun i => Nat.ltb i n) order && nodupb order.
+
+Definition conc_kind (b : bool) (o : outcome) : kind := if b then KBatch o 0 else KUpdate o.
+
+Fixpoint conc_fold (fl : flows) (b : bool) (s : dbstate) (calls : list ccall) (order : list nat) (ex : bool)
+  : option (dbstate * bool) :=
+  match order with
+  | [] => Some (s, ex)
+  | i :: order' =>
+      match nth_error calls i with
+      | Some (o, ops, ret) =>
+          match tx_ok fl s (conc_kind b o) ops ret with
+          | Some (s', e) => conc_fold fl b s' calls order' (ex && e)
+          | None => None
+          end
+      | None => None
+      end
+  end.
+
+Definition job_of (c : ccall) : job := Job (map fst (snd (fst c))) (fst (fst c)).
+
+(** the scheduler model on the schedule "one call after the other", and the
+    serial run, must end in the same tree with the same results *)
+Definition thread_ok (c : cstate) (i : nat) (call : ccall) : bool :=
+  match c_thr c i with
+  | TDone rs ret => fst (results_ok rs (snd (fst call))) && option_eqb outcome_eqb (snd call) ret
+  | _ => false
+  end.
+
+Fixpoint threads_ok (c : cstate) (i : nat) (calls : list ccall) : bool :=
+  match calls with
+  | [] => true
+  | call :: calls' => thread_ok c i call && threads_ok c (S i) calls'
+  end.
+
+Definition conc_ok (fl : flows) (s : dbstate) (b : bool) (calls : list ccall) (order : list nat)
+           (post : bkt) (open : N) : option (dbstate * bool) :=
+  if is_perm order (length calls) then
+    match conc_fold fl b s calls order true with
+    | Some (s', ex) =>
+        let f := if b then fl_batch fl else fl_update fl in
+        let jobs := map job_of calls in
+        match run_sched f jobs (cinit s) (serial_schedule jobs order), run_serial f jobs s order with
+        | Some c, Some (s2, _) =>
+            if after_ok s' post open && bkt_eqb (committed (c_db c)) post && threads_ok c 0 calls
+               && bkt_eqb (committed s2) post
+            then Some (s', ex) else None
+        | _, _ => None
+        end
+    | None => None
+    end
+  else None.
+
+Definition step_ok (fl : flows) (s : dbstate) (st : step) : option (dbstate * bool) :=
   match st with
-  | STx k ops ret post =>
-      match tx_ok s k ops ret with
-      | Some s' => if bkt_eqb (committed s') post then Some s' else None
+  | STx k ops ret post open =>
+      match tx_ok fl s k ops ret with
+      | Some (s', e) => if after_ok s' post open then Some (s', e) else None
       | None => None
       end
   | SReopen post =>
-      let s' := reopen s in if bkt_eqb (committed s') post then Some s' else None
-  | SOverlap before k ops ret after post =>
+      match reopen s, post with
+      | Some s', Some p => if bkt_eqb (committed s') p then Some (s', true) else None
+      | None, None => Some (s, true)
+      | _, _ => None
+      end
+  | SOverlap before k ops ret after post open =>
       (* a read transaction opened before the inner transaction and closed
          after it reads its own snapshot throughout *)
       let snap := committed s in
-      if results_ok (snd (run_ops false snap (map fst before))) before then
-        match tx_ok s k ops ret with
-        | Some s' =>
-            if results_ok (snd (run_ops false snap (map fst after))) after
-               && bkt_eqb (committed s') post
-            then Some s' else None
+      let vb := results_ok (snd (run_ops false snap (map fst before))) before in
+      if fst vb then
+        match tx_ok fl s k ops ret with
+        | Some (s', e) =>
+            let va := results_ok (snd (run_ops false snap (map fst after))) after in
+            if fst va && after_ok s' post open
+            then Some (s', snd vb && e && snd va) else None
         | None => None
         end
       else None
+  | SConc b calls order post open => conc_ok fl s b calls order post open
   end.
 
-Fixpoint steps_ok (s : dbstate) (l : list step) : bool :=
+Fixpoint steps_ok (fl : flows) (s : dbstate) (l : list step) (ex : bool) : verdict :=
   match l with
-  | [] => true
-  | st :: l' => match step_ok s st with Some s' => steps_ok s' l' | None => false end
+  | [] => (true, ex)
+  | st :: l' =>
+      match step_ok fl s st with
+      | Some (s', e) => steps_ok fl s' l' (ex && e)
+      | None => (false, false)
+      end
   end.
 
-Definition case_ok (c : list step) : bool := steps_ok init_db c.
+(** the skeleton of the code, as regenerated from the repository *)
+Definition case_verdict (c : list step) : verdict := steps_ok code_flows init_db c true.
+Definition case_ok (c : list step) : bool := fst (case_verdict c).
 
-Fixpoint mismatches_from {A} (f : A -> bool) (i : nat) (l : list A) : list nat :=
+Fixpoint indices_from {A} (f : A -> bool) (i : nat) (l : list A) : list nat :=
   match l with
   | [] => []
-  | c :: l' => if f c then mismatches_from f (S i) l' else i :: mismatches_from f (S i) l'
+  | c :: l' => if f c then i :: indices_from f (S i) l' else indices_from f (S i) l'
   end.
 
-Definition mismatches := mismatches_from case_ok 0.
+(** cases on which implementation and model differ / agree up to drift *)
+Definition judge (cases : list (list step)) : list nat * list nat :=
+  let vs := map case_verdict cases in
+  (indices_from (fun v : verdict => negb (fst v)) 0 vs,
+   indices_from (fun v : verdict => fst v && negb (snd v)) 0 vs).
+
+Definition mismatches (cases : list (list step)) : list nat := fst (judge cases).
